@@ -415,3 +415,6 @@ def check(ctx):
         # closure panics in boxed map / zip: trait-default bodies over Vec / Box iterators: no raw state (C15.K / C08.R)
         from . import c04
         c04.check_raw_writes(ctx, cfg)
+        # elements that own heap blocks of their own: a guard disarmed (finish()) before a call that can unwind or return early leaves them
+        # undropped - their blocks stay allocated once all values are gone. The finish window of C04.F, run here as C16.W (S256, S228 once more)
+        c04.check_finish_window(ctx, cfg, "C16.W")
